@@ -75,6 +75,10 @@ func (x *Exec) callFunc(fr *frame, st *State, callee *ssa.Function, args []Value
 		return x.callSpec(st, callee, args)
 	}
 	if ct := x.Prog.Contracts[q]; ct != nil && !x.Opt.NoContract[q] && !(x.Opt.InlineAll && callee.Blocks != nil) {
+		if ct.Havoc {
+			x.Notes.Uncontracted[q+" (havocked by its contract: nothing is assumed about it)"] = true
+			return x.havocCall(st, q, resT)
+		}
 		return x.applyContract(st, ct, callee, args, resT, pos)
 	}
 	if callee.Blocks != nil && len(x.stack) < x.Opt.MaxInline && !x.onStack(callee) {
@@ -432,7 +436,16 @@ func (x *Exec) invoke(fr *frame, st *State, recv Value, m *types.Func, args []Va
 	x.boundsObl(st, "nil", c.Distinct(recv.L[0], c.IntLit(0)), pos, "method call on non-nil interface")
 	// interface-level contract
 	iq := ifaceMethodName(recv.T, m)
-	if ct := x.Prog.Contracts[iq]; ct != nil {
+	ct := x.Prog.Contracts[iq]
+	if ct == nil {
+		// contract on the interface that declares the method (e.g. b6.Identifiable.FeatureID)
+		if sig, ok := m.Type().(*types.Signature); ok && sig.Recv() != nil {
+			if dq := ifaceMethodName(sig.Recv().Type(), m); dq != iq {
+				ct = x.Prog.Contracts[dq]
+			}
+		}
+	}
+	if ct != nil {
 		return x.applyContract(st, ct, nil, append([]Value{recv}, args...), resT, pos)
 	}
 	x.Notes.Uncontracted["invoke "+iq] = true
@@ -502,10 +515,14 @@ func (x *Exec) contractEnv(ct *Contract, callee *ssa.Function, args []Value, st,
 func (x *Exec) applyContract(st *State, ct *Contract, callee *ssa.Function, args []Value, resT types.Type, pos token.Pos) Value {
 	c := x.C
 	name := ct.Func
-	if ct.Trusted {
+	if ct.Trusted || ct.Function {
 		x.Notes.Assumed["contract of "+name+" (trusted, "+ct.Pos+")"] = true
 	} else {
-		x.Notes.UnderContract[name] = true
+		x.Notes.Inlined["(by contract) "+name] = true
+		if x.Notes.Used == nil {
+			x.Notes.Used = map[string]bool{}
+		}
+		x.Notes.Used[name] = true
 	}
 	if callee == nil {
 		callee = x.Prog.FuncByName(name)
@@ -545,7 +562,7 @@ func (x *Exec) applyContract(st *State, ct *Contract, callee *ssa.Function, args
 	x.assume(st, x.C.IntCmp(">=", na, st.Alloc))
 	st.Alloc = na
 	var res Value
-	if ct.Pure && resT != nil && len(ct.Ensures) == 0 && allScalar(args) {
+	if resT != nil && len(ct.Ensures) == 0 && (ct.Function || ct.Pure && allScalar(args)) {
 		res = x.pureCallT(ct, args, resT)
 		x.assume(st, x.wfValueOrTuple(res, st.Alloc))
 	} else {
